@@ -10,10 +10,11 @@ import os
 import verif as V
 
 PROP = "C16"
-SPEC = ["Bng.Spec.C16Teardown", "Bng.Spec.C16Pppoe"]
+SPEC = ["Bng.Spec.C16Teardown", "Bng.Spec.C16Pppoe", "Bng.Spec.C16SubMgr"]
 COMPS = [
     V.Component("pppoesrv", monitors=["residue", "conservation"]),
     V.Component("teardown", monitors=["double-stop", "double-cleanup", "residue", "missing-stop", "stop-unstarted", "stop-before-end"]),
+    V.Component("submgr", monitors=["double-release", "double-end", "residue", "index-mismatch"]),
 ]
 _extra = os.path.join(os.path.dirname(os.path.abspath(__file__)), "c16_dhcp.py")
 if os.path.exists(_extra):
@@ -32,6 +33,7 @@ ASSUME = [
     "RADIUS accounting is observed as the Stop records a real loopback accounting server accepts; the eBPF removal as the callback invocations",
     "concurrent terminations are modelled as sequential ones (SessionTeardown.cleanup runs under its mutex; the tornDown flag is set under the session lock)",
     "the idle-sweep leak of the PPPoE server is the recorded finding KF-pppoe-idle-leak",
+    "subscriber.Manager: two TerminateSession calls are interleaved at the manager's unlock points (tbegin/tresume); AssignAddress racing a termination in progress is not explored",
 ]
 
 
